@@ -121,6 +121,12 @@ func tokens(s string) *big.Int {
 
 // newWorld builds a committed parent state: token binding, funded accounts, miners, a due escrow.
 func newWorld(balances map[common.Address]*big.Int, withMiners bool) *world {
+	return newWorldStakes(balances, withMiners, 0)
+}
+
+// newWorldStakes: variant > 0 gives the proposers and validators other stakes (a different parent state
+// for sibling blocks of the history-dependence search).
+func newWorldStakes(balances map[common.Address]*big.Int, withMiners bool, variant int) *world {
 	disk, err := db.NewMemDatabase()
 	must(err)
 	tdb := account.NewDatabase(disk)
@@ -139,12 +145,12 @@ func newWorld(balances map[common.Address]*big.Int, withMiners bool) *world {
 	if withMiners {
 		for i, id := range proposerIds {
 			m := &types.Miner{Id: id, PublicKey: []byte{1, byte(i)}, VrfPublicKey: []byte{2, byte(i)}, Type: common.MinerTypeProposer,
-				Stake: common.ProposerStake * uint64(i+1), Status: common.MinerStatusNormal, Account: addr(100 + i).Bytes()}
+				Stake: common.ProposerStake * uint64((i+variant)%3+1+variant), Status: common.MinerStatusNormal, Account: addr(100 + i).Bytes()}
 			service.MinerManagerImpl.InsertMiner(m, adb)
 		}
 		for i, id := range validatorIds {
 			m := &types.Miner{Id: id, PublicKey: []byte{3, byte(i)}, VrfPublicKey: []byte{4, byte(i)}, Type: common.MinerTypeValidator,
-				Stake: common.ValidatorStake * uint64(i+1), Status: common.MinerStatusNormal, Account: addr(110 + i).Bytes()}
+				Stake: common.ValidatorStake * uint64((i+2*variant)%4+1), Status: common.MinerStatusNormal, Account: addr(110 + i).Bytes()}
 			service.MinerManagerImpl.InsertMiner(m, adb)
 		}
 		// escrow falling due at blockHeight: CheckAndMove ranges over it
@@ -464,8 +470,10 @@ func blockBalances() map[common.Address]*big.Int {
 	return b
 }
 
-func header() *types.BlockHeader {
-	return &types.BlockHeader{Height: blockHeight, CurTime: time.Unix(1700000000, 0), Castor: proposerIds[0], GroupId: groupId,
+func header() *types.BlockHeader { return headerAt(blockHeight) }
+
+func headerAt(h uint64) *types.BlockHeader {
+	return &types.BlockHeader{Height: h, CurTime: time.Unix(1700000000, 0), Castor: proposerIds[0], GroupId: groupId,
 		Hash: common.BytesToHash(common.Sha256([]byte("hdr")))}
 }
 
@@ -534,6 +542,7 @@ func genBlock(r *hx.Rng) blockCase {
 
 type blockOutcome struct {
 	Root, CommitRoot, ReceiptsTree string
+	Escrow                         []string // refund/reward store after the block: escrow of the next reward height and of this height
 	Evicted                        []string
 	Receipts                       []string
 	TypesOf                        []int32
@@ -545,18 +554,31 @@ func (o blockOutcome) digest() string {
 }
 
 func runBlock(w *world, bc blockCase) (o blockOutcome, panicked interface{}) {
+	return runBlockAt(w, bc, blockHeight)
+}
+
+func escrowDump(adb *account.AccountDB, h uint64) []string {
+	var l []string
+	for a, v := range adb.GetAllRefund(refundAddress(h)) {
+		l = append(l, fmt.Sprintf("%d:%s=%s", h, a.GetHexString(), v.String()))
+	}
+	sort.Strings(l)
+	return l
+}
+
+func runBlockAt(w *world, bc blockCase, height uint64) (o blockOutcome, panicked interface{}) {
 	defer func() {
 		if p := recover(); p != nil {
 			panicked = fmt.Sprintf("%v\n%s", p, debug.Stack())
 		}
 	}()
-	common.SetBlockHeight(blockHeight - 1)
+	common.SetBlockHeight(height - 1)
 	adb := w.fresh()
 	txs := make([]*types.Transaction, len(bc.Txs))
 	for i, d := range bc.Txs {
 		txs[i] = d.tx()
 	}
-	block := &types.Block{Header: header(), Transactions: txs}
+	block := &types.Block{Header: headerAt(height), Transactions: txs}
 	root, evicted, executed, receipts := core.VerifC01ExecuteBlock(adb, block, "fullverify")
 	o.Root = root.Hex()
 	for _, e := range evicted {
@@ -573,12 +595,22 @@ func runBlock(w *world, bc blockCase) (o blockOutcome, panicked interface{}) {
 		o.CommitRoot = "error: " + err.Error()
 	} else {
 		o.CommitRoot = cr.Hex()
+		// the refund/reward store, read through a new state object at the committed root
+		if post, err := account.NewAccountDB(cr, adb.Database()); err == nil {
+			o.Escrow = append(escrowDump(post, service.RewardCalculatorImpl.NextRewardHeight(height)), escrowDump(post, height)...)
+		} else {
+			o.Escrow = []string{"error: " + err.Error()}
+		}
 	}
 	return
 }
 
 // ---------------------------------------------------------------------------------------------
 func main() {
+	if job := os.Getenv("C01_CHILD_JOB"); job != "" {
+		childMain(job)
+		return
+	}
 	a := hx.ParseArgs()
 	rng := hx.NewRng(a.Seed)
 	reps := 8
@@ -589,7 +621,8 @@ func main() {
 		"runs must agree on (state root, receipts: status/msg/gas/logs, receipts tree, evicted list). Inputs: ChangeAssets target maps (1-6 entries, sender "+
 		"itself / aliases by case, prefix, padding / non-address keys / zero and unparsable amounts / sums around the balance; plus every map over 4 keys "+
 		"(2 spellings of the sender, 2 of another account) x a small amount set), blocks of 1-5 transactions (transfer, miner apply/add/refund/change-account, "+
-		"operator node, contract create/call of a contract that stores the EVM block context) with the after() stage, shuffled admissible tx lists, multi-height refund data, sub-chain reward call data. "+
+		"operator node, contract create/call of a contract that stores the EVM block context) with the after() stage, shuffled admissible tx lists, multi-height refund data, sub-chain reward call data. History search: a block executed as the only block of a fresh child process "+
+		"must give the same root/receipts/evicted list/reward store as in this process after sibling blocks of the same height (same and another parent state, changed stakes), neighbouring heights and other blocks. "+
 		"non-trivial = distinct input with at least two entries at some map iteration site (so that an order exists)", reps))
 	cs := hx.NewCases(a.Out, "From V.C01 Require Import Harness.", "c01case", "check", 300)
 
@@ -863,6 +896,9 @@ func main() {
 		}
 		res.Histogram["evicted-txs"] += len(outsL[0].Evicted)
 	}
+
+	// ---- L6 history dependence (process-local memo state) ----
+	historySearch(a, rng, res, nBlk/4)
 
 	// ---- L3 sort ----
 	for i := 0; i < nSort; i++ {
